@@ -23,7 +23,33 @@ def drop(d):
     sh(f"git -C /repo worktree remove --force {d}")
     shutil.rmtree(d, ignore_errors=True)
 
+def mut():
+    """seed.py mut <relative file> <old text> <new text> <Cxx> [...]: ad-hoc textual mutation in a scratch worktree."""
+    rel, old, new = sys.argv[2], sys.argv[3], sys.argv[4]
+    wt = worktree()
+    try:
+        p = os.path.join(wt, rel)
+        src = open(p).read()
+        if src.count(old) < 1:
+            print("pattern not found"); return 2
+        open(p, "w").write(src.replace(old, new, 1))
+        b = sh(f"python3 /verif/tools/baseline.py {wt}")
+        print(b.stdout.strip().splitlines()[0])
+        env = dict(os.environ, FMC_REPO=wt)
+        for pid in sys.argv[5:]:
+            r = subprocess.run(f"/venv/bin/python -m fmc check {pid} --tier quick", shell=True, cwd="/verif",
+                               capture_output=True, text=True, env=env)
+            first = next((l.strip() for l in r.stdout.splitlines() if l.startswith("  clause=")), "")
+            print(f"mut {pid}: exit={r.returncode} {first[:250]}")
+            if r.returncode not in (0, 1):
+                print(r.stdout[-500:], r.stderr[-800:])
+    finally:
+        drop(wt)
+    return 0
+
 def main():
+    if sys.argv[1] == "mut":
+        return mut()
     cmd, sd = sys.argv[1], os.path.abspath(sys.argv[2])
     patch, demo = os.path.join(sd, "patch.diff"), os.path.join(sd, "demo.py")
     wt = worktree()
